@@ -298,6 +298,60 @@ func scenario(p params) *fw.Scenario {
 	}}
 }
 
+// overlapScenario: a first read (that ends at end of file, or not), then two
+// reads IN FLIGHT TOGETHER on one connection, with pools recycling (default
+// Get behaviour: most recently put) and all thread interleavings explored.
+// Each reply must carry exactly the bytes the backend produced for it: a
+// buffer handed to two requests at once shows as foreign or zeroed data.
+func overlapScenario(first string, a, b string) *fw.Scenario {
+	name := fmt.Sprintf("overlap|first=%s|%s||%s", first, a, b)
+	return &fw.Scenario{Name: name, Params: map[string]string{"first": first, "a": a, "b": b}, New: func() (func(), func(*vsched.Execution) ([]fw.Issue, string)) {
+		var problems []string
+		body := func() {
+			problems = nil
+			vsync.PoolRecycle = true
+			vsched.FreshCaches = false
+			defer func() { vsync.PoolRecycle = false; vsched.FreshCaches = true }()
+			fs := mkfs()
+			memfs.RecordSites = false
+			s := sess.Connect(fs, sess.NewServer(fs), "c0")
+			setup(s, "read")
+			f := build("read", first, 40, 0)
+			r0 := s.Do(f.msg)
+			if e := f.check(fs, nil, r0); e != "" {
+				problems = append(problems, "first read: "+e)
+			}
+			ba, bb := build("read", a, 41, 1), build("read", b, 42, 2)
+			vsched.BeginExplore()
+			s.Peer.SendAll(ba.msg, bb.msg)
+			for i := 0; i < 2; i++ {
+				r, err := s.Peer.Recv()
+				if err != nil {
+					problems = append(problems, "no reply: "+err.Error())
+					break
+				}
+				x := ba
+				if r.Tag == 42 {
+					x = bb
+				}
+				if e := x.check(fs, nil, r); e != "" {
+					problems = append(problems, fmt.Sprintf("read with tag %d in flight together with another read, after a %s first read: %s", r.Tag, first, e))
+				}
+			}
+			vsched.EndExplore()
+			s.Hangup()
+			s.WaitDone()
+		}
+		return body, func(e *vsched.Execution) ([]fw.Issue, string) {
+			var is []fw.Issue
+			for _, pr := range problems {
+				is = append(is, fw.Issue{Fingerprint: "carry-over|overlapping-reads|" + generalize(pr[strings.LastIndex(pr, ": ")+2:]), Summary: pr})
+			}
+			return is, fmt.Sprintf("problems=%d", len(problems))
+		}
+	}}
+}
+
 func generalize(s string) string {
 	var sb strings.Builder
 	inNum := false
@@ -320,7 +374,7 @@ func generalize(s string) string {
 }
 
 func run(ctx *fw.Ctx, rep *fw.Report) {
-	rep.Rule = "for each family (Twalk names, Twalkgetattr names, Twrite payload, Tread data, Treaddir entries, Treadlink string, Tsymlink strings): ALL sequences of length 1..3 of same-type messages with each variable-size part in {long, short, empty} x every assignment of the messages to 2 connections of one server process (shared message cache and buffer pools); messages run in lock-step on the real server under the controlled scheduler with sync.Pool in recycling mode: which object a Pool.Get returns (most recent / oldest / fresh) is an explored data choice (<= 2 departures from 'most recent'), the message cache is the real channel; thread schedule: the default one (lock-step leaves no request-level concurrency); oracle: direct expectation per message written from the request (names seen by the backend, payload bytes and offset, reply data == bytes the backend produced, entries, strings)"
+	rep.Rule = "for each family (Twalk names, Twalkgetattr names, Twrite payload, Tread data, Treaddir entries, Treadlink string, Tsymlink strings): ALL sequences of length 1..3 of same-type messages with each variable-size part in {long, short, empty} x every assignment of the messages to 2 connections of one server process (shared message cache and buffer pools); messages run in lock-step on the real server under the controlled scheduler with sync.Pool in recycling mode: which object a Pool.Get returns (most recent / oldest / fresh) is an explored data choice (<= 2 departures from 'most recent'), the message cache is the real channel; thread schedule: the default one (lock-step leaves no request-level concurrency); plus 9 scenarios 'one read (long/short/at end of file), then two reads in flight together' with all thread interleavings explored (DPOR) and pools recycling most-recent-first; oracle: direct expectation per message written from the request (names seen by the backend, payload bytes and offset, reply data == bytes the backend produced, entries, strings)"
 	rep.Assumptions = append(rep.Assumptions, "Pool.Get alternatives bounded to 2 deviations from most-recently-put", "lock-step (one message in flight)", "client-side decoding into caller-provided structs is covered by C01/C17")
 	families := []string{"walk", "walkgetattr", "write", "read", "readdir", "readlink", "symlink"}
 	var scs []*fw.Scenario
@@ -351,6 +405,18 @@ func run(ctx *fw.Ctx, rep *fw.Report) {
 		}
 	}
 	rep.Info["scenarios_total"] = len(scs)
+	// overlapping reads (thread interleavings explored, default pool behaviour)
+	n0 := len(scs)
+	for _, first := range sizes {
+		for _, pair := range [][2]string{{"long", "short"}, {"long", "long"}, {"short", "empty"}} {
+			sc := overlapScenario(first, pair[0], pair[1])
+			n0++
+			if !ctx.Mine(n0) {
+				continue
+			}
+			fw.RunScenario(ctx, rep, sc, fw.SchedOpts{Budget: 30 * time.Second, ForcePB: -1, Fallback: []int{0, 1}, Deviations: 0})
+		}
+	}
 	for i, sc := range scs {
 		if !ctx.Mine(i) {
 			continue
